@@ -23,6 +23,11 @@ operands are `['n', i]` (value of node i) or `['c', number]`; node kinds:
     list   {'k','items'}                      [..]  (c02: multichannel expansion)
     sink   {'k','cls','m','bus','chans'|'args'}      Out.ar(bus, [chans]) ...
     raw    {'k','src'}                        verbatim statement (c02 only)
+    wrapfail {'k','helper','fallback'}        try: SynthDef.wrap(helper with a bad
+                                              rate annotation) except ValueError:
+                                              the fallback operand   (c02 only)
+    wrapok {'k','helper'}                     SynthDef.wrap(valid helper) (c02 only)
+    alias  {'k','a'}                          v<i> = operand
 
 API (everything except namespace/make_func/build is sc3-free):
 
@@ -373,6 +378,10 @@ class SourceEval:
             return acc
         if k == 'idx':
             return self.vals[nd['a'][1]][nd['i']]
+        if k == 'alias':
+            return self.operand(nd['a'])
+        if k == 'wrapfail':
+            return self.operand(nd['fallback'])
         if k == 'ugen':
             cls = nd['cls']
             ent = UGENS[cls]
@@ -429,7 +438,8 @@ def operands_of(nd):
     if k == 'madd': return [nd['a'], nd['mul'], nd['add']]
     if k == 'sumn': return list(nd['args'])
     if k in ('lsum', 'mix', 'list'): return list(nd['items'])
-    if k == 'idx': return [nd['a']]
+    if k in ('idx', 'alias'): return [nd['a']]
+    if k == 'wrapfail': return [nd['fallback']]
     if k == 'ugen': return list(nd['args'])
     if k == 'sink':
         if 'chans' in nd:
@@ -490,6 +500,13 @@ def render_node(i, nd, program):
         return f"v{i} = {_opnd(nd['a'])}[{nd['i']}]"
     if k == 'raw':                  # verbatim statement (c02 invalid inputs)
         return nd['src']
+    if k == 'alias':
+        return f"v{i} = {_opnd(nd['a'])}"
+    if k == 'wrapok':
+        return f"v{i} = SynthDef.wrap(_h{i})"
+    if k == 'wrapfail':             # the graph function recovers from the fault
+        return (f"try:\n    v{i} = SynthDef.wrap(_h{i})\n"
+                f"except ValueError:\n    v{i} = {_opnd(nd['fallback'])}")
     if k == 'list':
         return (f"v{i} = ChannelList(["
                 + ', '.join(_opnd(o) for o in nd['items']) + '])')
@@ -526,9 +543,22 @@ def render(program, fname='graph'):
             ps.append(f"{prm['name']}: '{prm['rate']}' = {ds}")
         else:
             ps.append(f"{prm['name']}={ds}")
-    lines = [f"def {fname}({', '.join(ps)}):"]
+    lines = []
+    for i, nd in enumerate(program['nodes']):      # helpers of SynthDef.wrap
+        if nd['k'] in ('wrapok', 'wrapfail'):
+            hp = []
+            for p in nd['helper']['params']:
+                an = f": {p['annot']!r}" if p.get('annot') is not None else ''
+                hp.append(f"{p['name']}{an} = {_num_src(p['default'])}"
+                          if an else f"{p['name']}={_num_src(p['default'])}")
+            lines.append(f"def _h{i}({', '.join(hp)}):")
+            lines.append(f"    return SinOsc.ar({nd['helper']['freq']}) * "
+                         f"{nd['helper']['params'][0]['name']}")
+            lines.append('')
+    lines.append(f"def {fname}({', '.join(ps)}):")
     for i, nd in enumerate(program['nodes']):
-        lines.append('    ' + render_node(i, nd, program))
+        for ln in render_node(i, nd, program).split('\n'):
+            lines.append('    ' + ln)
     if not program['nodes']:
         lines.append('    pass')
     return '\n'.join(lines) + '\n'
@@ -725,6 +755,11 @@ class Gen:
             semc = vals[0] == vals[3]
             lo = 2 if vals[0] != vals[1] else 1 if vals[0] != vals[2] else 0
             return _Info('val', hi, min(lo, hi), semc, depth)
+        if k in ('alias', 'wrapfail'):
+            a = self.oinfo(nd['a'] if k == 'alias' else nd['fallback'])
+            return _Info(a.kind, a.hi, a.lo, a.semc, a.depth)
+        if k == 'wrapok':             # helper returns SinOsc.ar(f) * control
+            return _Info('val', 2, 2, False, 2)
         if k == 'idx':
             a = self.info[nd['a'][1]]
             if a.einfo is not None:
@@ -1411,6 +1446,66 @@ class Gen2(Gen):
                          'args': [chain, ['c', 0], ['c', t]], 'tag': t})
 
 
+BAD_ANNOTATIONS = ['xr', 'audio', 'control', 'k', 'KR', 'a', 'dr', '', 'kr ']
+
+
+def _wrap_helper(rng, names, bad):
+    """helper function of SynthDef.wrap as data: 1-4 scalar parameters; when
+    `bad`, one rate annotation is invalid (mostly not the first one)"""
+    n = rng.randint(2, 4) if bad else rng.randint(1, 3)
+    params = []
+    for k in range(n):
+        params.append({'name': names[k],
+                       'default': rng.choice(SMALL_CONSTS + [0, 1, 0.0]),
+                       'annot': rng.choice([None, None, 'kr', 'ir', 'tr', 'kr'])})
+    if bad:
+        pos = rng.choice([0] + list(range(1, n)) * 4)
+        params[pos]['annot'] = rng.choice(BAD_ANNOTATIONS)
+    return {'params': params, 'freq': rng.choice([110, 220, 330, 55])}
+
+
+def add_wraps(g, rng):
+    """'recovered failing wrap': the graph function tries SynthDef.wrap on a
+    helper with an invalid rate annotation, catches the ValueError, uses a
+    fallback signal, optionally wraps a valid helper (same or other parameter
+    names) and carries on.  Returns the controls the valid wraps create."""
+    created = []
+    if not hasattr(g, '_wrap_state'):
+        fresh0 = [f'w{k}' for k in range(80)]
+        rng.shuffle(fresh0)
+        g._wrap_state = {'taken': {p['name'] for p in g.prog['params']},
+                         'fresh': fresh0, 'group': 0}
+    taken = g._wrap_state['taken']
+    fresh = g._wrap_state['fresh']
+    group = g._wrap_state['group']
+    for _ in range(rng.choice([1, 1, 2])):
+        names = [fresh.pop() for _ in range(4)]
+        fb = g.audio_node()
+        g.add({'k': 'wrapfail', 'helper': _wrap_helper(rng, names, True),
+               'fallback': fb})
+        g.features.add('recovered-failing-wrap')
+        for _ in range(rng.choice([0, 1, 1, 2])):
+            if rng.random() < 0.5:
+                onames = names            # the names the rejected helper had
+                names = [fresh.pop() for _ in range(4)]
+            else:
+                onames = [fresh.pop() for _ in range(4)]
+            h = _wrap_helper(rng, onames, False)
+            if any(p['name'] in taken for p in h['params']):
+                continue
+            group += 1
+            g.add({'k': 'wrapok', 'helper': h})
+            for p in h['params']:
+                taken.add(p['name'])
+                created.append({'name': p['name'], 'default': p['default'],
+                                'rate': p['annot'] or 'kr', 'lag': 0,
+                                'group': group})
+        if rng.random() < 0.5:
+            g.p_bin_ring()
+    g._wrap_state['group'] = group
+    return created
+
+
 ASCII_PRINTABLE = ''.join(chr(c) for c in range(32, 127))
 
 INVALID_KINDS = ['out-ar-control-input', 'filter-ar-control-input',
@@ -1446,12 +1541,15 @@ def gen_program_c02(rng, kind, name=None):
     for _ in range(rng.randint(1, 4)):
         g.mk_src(rng.choice(['SinOsc', 'LFSaw', 'Impulse', 'WhiteNoise', 'Rand',
                              'LFNoise0', 'SampleRate']))
+    wrap_params = []
+    if kind == 'wrap' and rng.random() < 0.5:
+        wrap_params += add_wraps(g, rng)
     prods = [p for p in C01_PRODUCTIONS if not (big and p[0] == 'p_self')]
     if kind in ('mc', 'big'):
         prods += [('p_list', 4), ('p_mc', 10), ('p_sink_list', 3)]
     if kind in ('wf', 'big'):
         prods += [('p_wf', 6), ('p_tagged_op', 5)]
-    if kind in ('plain', 'variants') or kind.startswith('invalid'):
+    if kind in ('plain', 'variants', 'wrap') or kind.startswith('invalid'):
         prods += [('p_tagged_op', 1)]
     steps = rng.randint(150, 400) if big else rng.choice(
         [rng.randint(1, 8), rng.randint(6, 20), rng.randint(10, 40)])
@@ -1460,6 +1558,12 @@ def gen_program_c02(rng, kind, name=None):
         if len(g.prog['nodes']) >= g.max_nodes:
             break
         getattr(g, rng.choices(names, weights)[0])()
+    if kind == 'wrap' and (not wrap_params and not any(
+            nd['k'] == 'wrapfail' for nd in g.prog['nodes'])
+            or rng.random() < 0.3):
+        wrap_params += add_wraps(g, rng)
+    if kind == 'wrap':
+        g.prog['wrap_params'] = wrap_params
     for _ in range(rng.choice([1, 1, 2, 3])):
         g.p_sink()
     if kind in ('mc', 'big'):
@@ -1549,6 +1653,17 @@ def _inject_invalid(g, what):
                    'args': [['raw', raw], ['c', t]], 'tag': t})
     g.add({'k': 'sink', 'cls': 'Out', 'm': 'ar', 'bus': ['c', 0],
            'chans': [x]})
+
+
+def without_failed_wraps(program):
+    """the same program with every failed wrap replaced by its fallback: the
+    rejected helper must leave nothing behind, so both build the same bytes"""
+    import copy
+    q = copy.deepcopy(program)
+    for i, nd in enumerate(q['nodes']):
+        if nd['k'] == 'wrapfail':
+            q['nodes'][i] = {'k': 'alias', 'a': nd['fallback']}
+    return q
 
 
 def tag_creation_order(program):
